@@ -107,16 +107,18 @@ CHECKS = {
             {"pkg": TOK, "harness": "VxC08_TokReuse4", "tiers": ["thorough"], "expect_asserts": ["C08.tok_same_tokens", "C08.tok_same_spans"]}],
     },
     "C09": {
-        "bounds": {"quick": "cleanliness: every Get*/Put* pair of pkg/sql/ast/pool.go (generated from the current source), released directly and through the tree-release path, with (a) every field populated and (b) each single field populated in turn (type-directed, symbolic contents; interface fields hold a shared sentinel node); aliasing: every history of <= 3 steps over {parse one of 7 texts and hold, parse and release, release a held tree} with all held trees frozen; transform rules: every pair of 15 rule values (AddWhereFromSQL, AddJoinFromSQL, SetLimit/Offset, AddOrderBy, ReplaceTable, AddTableAlias, QualifyColumns, Remove/ReplaceColumn, AddSelectStar, RemoveWhere/Limit/OrderBy/Join) applied to two trees (4 texts each), the second frozen while the first is released, no pooled object put twice; tokenizer: two consecutive Tokenize calls (same and pooled instance) over all inputs <= 3 bytes of the comment alphabet with the first call's tokens and comments frozen",
+        "bounds": {"quick": "cleanliness: every Get*/Put* pair of pkg/sql/ast/pool.go (generated from the current source), released directly and through the tree-release path, with (a) every field populated and (b) each single field populated in turn (type-directed, symbolic contents; interface fields hold a shared sentinel node); aliasing: every history of <= 3 steps over {parse one of 7 texts and hold, parse and release, release a held tree} with all held trees frozen; cancellation: the C11 runs (ParseContext cancelled at every poll of a 70-token nested statement and of <= 2-token continuations) under a pool monitor: no pooled object is released twice; transform rules: every pair of 15 rule values (AddWhereFromSQL, AddJoinFromSQL, SetLimit/Offset, AddOrderBy, ReplaceTable, AddTableAlias, QualifyColumns, Remove/ReplaceColumn, AddSelectStar, RemoveWhere/Limit/OrderBy/Join) applied to two trees (4 texts each), the second frozen while the first is released, no pooled object put twice; tokenizer: two consecutive Tokenize calls (same and pooled instance) over all inputs <= 3 bytes of the comment alphabet with the first call's tokens and comments frozen",
                    "thorough": "histories of <= 4 steps; tokenizer inputs <= 4 bytes"},
         "outside": "goroutine interleavings (C10); extracted lists and scan results (fresh slices per call by construction; not asserted); Fill depth 2",
         "assumptions": ["sync.Pool is a LIFO stack: Get returns the most recently Put object (realisable on a single P without GC), PoolGC empties the pools"],
         "runs": [
             {"pkg": "pkg/sql/ast", "harness": "VxC09_Clean", "generate": "c09_pools", "expect_asserts": ["C09.clean"]},
             {"pkg": "pkg/sql/ast", "harness": "VxC09_ASTContainer", "expect_asserts": ["C09.clean_container"]},
-            {"pkg": "pkg/transform", "harness": "VxC09_Transform", "expect_asserts": ["C09.transform_independent"], "generic": ["pool_double_put"]},
-            {"pkg": "pkg/gosqlx", "harness": "VxC09_History3", "tiers": ["quick"], "args": {"replace": "context.WithTimeout=VxTimeoutCtx"}, "generic": ["pool_double_put"]},
-            {"pkg": "pkg/gosqlx", "harness": "VxC09_History4", "tiers": ["thorough"], "args": {"replace": "context.WithTimeout=VxTimeoutCtx"}, "generic": ["pool_double_put"]},
+            {"pkg": PAR, "harness": "VxC11_Nested", "args": {"max-steps": 400000}, "generic": ["pool_double_put"], "engine_only_asserts": ["pool_double_put"], "budget_judged_by": "C01"},
+            {"pkg": PAR, "harness": "VxC11_Where2", "tiers": ["quick"], "args": {"max-steps": 400000}, "generic": ["pool_double_put"], "engine_only_asserts": ["pool_double_put"], "budget_judged_by": "C01"},
+            {"pkg": "pkg/transform", "harness": "VxC09_Transform", "expect_asserts": ["C09.transform_independent"], "generic": ["pool_double_put"], "engine_only_asserts": ["pool_double_put"]},
+            {"pkg": "pkg/gosqlx", "harness": "VxC09_History3", "tiers": ["quick"], "args": {"replace": "context.WithTimeout=VxTimeoutCtx"}, "generic": ["pool_double_put"], "engine_only_asserts": ["pool_double_put"]},
+            {"pkg": "pkg/gosqlx", "harness": "VxC09_History4", "tiers": ["thorough"], "args": {"replace": "context.WithTimeout=VxTimeoutCtx"}, "generic": ["pool_double_put"], "engine_only_asserts": ["pool_double_put"]},
             {"pkg": TOK, "harness": "VxC09_TokAlias3", "tiers": ["quick"]},
             {"pkg": TOK, "harness": "VxC09_TokAliasPool3", "tiers": ["quick", "thorough"]},
             {"pkg": TOK, "harness": "VxC09_TokAlias4", "tiers": ["thorough"]},
@@ -232,7 +234,7 @@ CHECKS = {
                    "thorough": "<= 3-token continuations"},
         "outside": "TokenizeContext polling (every 100 tokens: not reachable within the byte bounds; its pre-check is covered by VxC11_Tok); gosqlx.ParseWithContext adds only tokenisation in front of ParseContext",
         "assumptions": ["the context is monotone: once done it stays done with the same error"],
-        "runs": parruns(["VxC11_Nested", "VxC11_Returning", "VxC11_Where2", "VxC11_Select2"], ["VxC11_Nested", "VxC11_Returning", "VxC11_Where3", "VxC11_Select3"], ["C11.is_ctx_err", "C11.same_tree", "C11.residue_depth"], extra={"generic": ["pool_double_put"]}),
+        "runs": parruns(["VxC11_Nested", "VxC11_Returning", "VxC11_Where2", "VxC11_Select2"], ["VxC11_Nested", "VxC11_Returning", "VxC11_Where3", "VxC11_Select3"], ["C11.is_ctx_err", "C11.same_tree", "C11.residue_depth"], extra={"generic": ["pool_double_put"], "engine_only_asserts": ["pool_double_put"]}),
     },
     "C12": {
         "bounds": {"quick": "token soup: every EOF-terminated stream of <= 3 symbolic tokens (150-row table) at statement start and after 'SELECT a FROM t ;' — termination (unwinding budget) and errors-iff-strict-fails; scripts S1;S2 where each Si is one of 8 valid statements (SELECT x2, SHOW - whose first token is not a synchronisation keyword -, DELETE, DROP, TRUNCATE, CREATE TABLE, INSERT) under a symbolic corruption (none / delete / duplicate / replace by one of 12 tokens / truncate, position symbolic), at most one corrupted; twins: the same corrupted statement twice, optionally around a good one: two errors, exactly the good statements, no nil entry",
